@@ -1,3 +1,4 @@
+import ElvisVerif.Generated.Consts
 -- GENERATED from /repo sources by tools/extract.py on every check; do not edit
 namespace Elvis.Gen
 /-- Socket::recv compares a dequeued message with the space left (`bytes - buf.len()`), not with `bytes` -/
@@ -18,5 +19,4 @@ def acceptReplayUnderLock : Bool := true
 def demuxReceivesUnderReadLock : Bool := true
 /-- SocketAPI::demux: exact 4-tuple, else listen binding exact-then-wildcard, store + backlog try_send before insert -/
 def demuxLookupShape : Bool := true
-def udpHeaderOctets : Nat := 8
 end Elvis.Gen
